@@ -16,8 +16,8 @@ from pathlib import Path
 
 ROOT = Path(__file__).resolve().parent.parent
 LEAN = ROOT / "lean"
-EVID = ROOT / "evidence"
-REPLAYS = ROOT / "replays"
+EVID = Path(os.environ.get("VERIF_EVIDENCE_DIR") or ROOT / "evidence")   # overridden only by tools/ (seed evaluation)
+REPLAYS = Path(os.environ.get("VERIF_REPLAYS_DIR") or ROOT / "replays")
 CORPUS = ROOT / "corpus"
 FINDINGS = ROOT / "known_findings.json"
 DRIVER = LEAN / ".lake" / "build" / "bin" / "avdrv"
@@ -296,7 +296,7 @@ def write_replay(prop, kind, payload):
     name = "%s-%s-%s.json" % (prop, kind, hashlib.sha1(json.dumps(payload, sort_keys=True, default=str).encode()).hexdigest()[:10])
     path = REPLAYS / name
     path.write_text(json.dumps(payload, indent=1, default=str))
-    return path.relative_to(ROOT)
+    return path.relative_to(ROOT) if path.is_relative_to(ROOT) else path
 
 
 def load_corpus(prop):
